@@ -89,7 +89,10 @@ fn new_arg_may_start(c: &CmdSpec, li: &LevelIntent) -> bool {
             let a = &c.args[*arg];
             a.require_equals || toks.len() == a.eff_num_args().1
         }
-        Some(Item::Pos { arg, .. }) => c.args[*arg].eff_num_args().1 == 1 && !c.args[*arg].last,
+        // (a final positional behind a still-open multi-valued one — the low-index shape — is a pending value too)
+        Some(Item::Pos { arg, .. }) => {
+            c.args[*arg].eff_num_args().1 == 1 && !c.args[*arg].last && !c.args[..*arg].iter().any(|p| p.is_positional() && p.eff_num_args().1 > 1)
+        }
         Some(Item::Term { .. }) => true,
     }
 }
@@ -139,6 +142,8 @@ fn soundness(rng: &mut Rng, st: &mut Stats) {
             Some("after-inferred-prefix")
         } else if r.features.iter().any(|f| *f == "alias.long-hidden" || *f == "alias.short-hidden") {
             Some("after-hidden-alias")
+        } else if r.features.iter().any(|f| *f == "value.negative-number") {
+            Some("after-negative-number-value")
         } else {
             None
         };
